@@ -1,5 +1,5 @@
 (* C09 - direct inference, System P, rational monotony, (Bottom|A) only for unsatisfiable A. *)
-From InfOCF Require Import Core Tol Form Model Spec Pref Pref2 ThmPost.
+From InfOCF Require Import Core Tol PEnt Form Model Spec Pref Pref2 ThmPost CModel ThmPostInt.
 From InfOCFProps Require Import Ex.
 
 (* REF, LLE, RW, SCL, AND, OR, CM, CUT, BOTTOM for every strict partial order on a finite world list *)
@@ -34,6 +34,28 @@ Print Assumptions C09_lex_RM.
 Theorem C09_direct_inference_z : forall Wl P c, is_tp world Wl P -> In (ac c) (concat P) -> z_spec Wl P c = true.
 Proof. exact direct_z. Qed.
 Print Assumptions C09_direct_inference_z.
+
+(* p-entailment: the answers are the intersection of the preferential relations of all ranking models of D (not empty:
+   the Z-ranking is one), hence satisfy System P including BOTTOM; every ranking model accepts every conditional of D *)
+Theorem C09_p_entailment_is_intersection : forall n D P A B, D <> [] -> part_strict n D = Some P ->
+  (Model.infer n SysP false D (mkq B A) = Ans true <-> p_rel (worlds n) (map ac D) A B).
+Proof. exact p_answers_are_all_models. Qed.
+Print Assumptions C09_p_entailment_is_intersection.
+Theorem C09_p_entailment_systemP : forall n D P, D <> [] -> part_strict n D = Some P ->
+  sysP_holds (worlds n) (fun A B => Model.infer n SysP false D (mkq B A) = Ans true).
+Proof. exact p_entailment_sysP. Qed.
+Print Assumptions C09_p_entailment_systemP.
+Theorem C09_direct_inference_p : forall n D c, In c D -> forall k, model world (worlds n) k (map ac D) -> accepts world (worlds n) k (ac c).
+Proof. exact p_direct. Qed.
+Print Assumptions C09_direct_inference_p.
+(* c-inference: intersection over all c-representations of D (not empty for a strongly consistent base: C17) *)
+Theorem C09_c_inference_systemP : forall n D P, part_strict n D = Some P -> selffulfilling n D = false ->
+  sysP_holds (worlds n) (fun A B => (forall w, In w (worlds n) -> eval w A = false) \/ c_infer_prop n D (mkq B A)).
+Proof. exact c_inference_sysP_strict. Qed.
+Print Assumptions C09_c_inference_systemP.
+Theorem C09_direct_inference_c : forall n D c, In c D -> c_spec_prop n D c.
+Proof. exact c_direct. Qed.
+Print Assumptions C09_direct_inference_c.
 
 Example birds_direct : forallb (fun c => match Model.infer 4 SysZ false birds c with Ans b => b | Refuse => false end) birds = true
   /\ Model.infer 4 SysW false birds (mk 9 FBot (v 1)) = Ans false.
